@@ -26,11 +26,11 @@ META = {
                 note="Runs end by completion or limit as in the property's quantifier."),
     "C05": dict(cat="model_checking", eng="E1-sched", ref="3 (scheduler group)",
                 tech="stateless deviation-bounded exploration + statement-derived termination/done oracle",
-                text="Limits incl. non-multiples of tock, start tymes, always-DoDoers, limit and start tyme given to the constructor or to do() over stale constructor values ('no limit' said as limit=0; limits of either sign), doers added at runtime, a doer given to an idle always-DoDoer from outside, doers run before by another Doist; return cycle, doist.done, final tyme and every doer.done are checked against rules computed from the statement and the observed completions.",
+                text="Limits incl. non-multiples of tock, start tymes, always-DoDoers, limit and start tyme given to the constructor or to do() over stale constructor values ('no limit' said as limit=0; limits of either sign), doers added at runtime, a deed left over before a run that is given its doers, a doer given to an idle always-DoDoer from outside, doers run before by another Doist; return cycle, doist.done, final tyme and every doer.done are checked against rules computed from the statement and the observed completions.",
                 note="An idle always-DoDoer's done flag after a forced close is excluded (pinned by hio's own test_dodoer_always), also when it was given a doer from outside after its last recur (runtime extension is C06's subject)."),
     "C06": dict(cat="model_checking", eng="E1-sched", ref="3 (scheduler group)",
                 tech="stateless deviation-bounded exploration of extend/remove histories + list model of membership",
-                text="extend/remove of self, adjacent and far siblings, the scheduler's own doers list, completed, absent and duplicate doers, new doers that complete inside enter, a completed doer taken out and added again (second life), extend reaching into a sibling always-DoDoer, from inside running doers at every step, owners Doist and DoDoer(always); timing clauses and scheduler.doers vs list model checked after every call.",
+                text="extend/remove of self, adjacent and far siblings, the scheduler's own doers list, completed, absent and duplicate doers, new doers that complete inside enter, a completed doer taken out and added again (second life), two siblings removed in the reverse of their insertion order, a self-removed doer that must run to its own return, extend reaching into a sibling always-DoDoer, from inside running doers at every step, owners Doist and DoDoer(always); timing clauses and scheduler.doers vs list model checked after every call.",
                 note="extend from inside enter is outside the quantifier. Re-adding a self-removed still-running doer is not in the alphabet."),
     "C08": dict(cat="model_checking", eng="E3 op-sequence enumeration", ref="3 (C08)",
                 tech="exhaustive enumeration of all timer operation sequences up to a depth against a start/stop model",
@@ -38,7 +38,7 @@ META = {
                 note="Fake clock installed as hio.help.timing.time; dyadic values keep MonoTimer arithmetic exact."),
     "C09": dict(cat="model_checking", eng="E1 over FakeNet", ref="3 (TCP group), 2 (FakeNet)",
                 tech="stateless deviation-bounded exploration of kernel answers (partial send/short read/would-block/TLS want) on real tcp Client/Server over an in-memory kernel model",
-                text="Real tcp Client/ClientTls (built with application-supplied empty rxbs/txbs buffers, which the harness fills and observes) and Server/ServerTls exchange scripted payloads over FakeNet (TLS may want the opposite direction at any send/recv; wire logs receive-only, transmit-only or both; server-side connection timers that activity refreshes or not; a reconnectable client whose server is not listening at first, so that it re-opens its socket with bytes waiting; either side half-closing its receive direction and transmitting on); every execution with up to 3 (quick) / 5 (thorough) non-default kernel answers is run; after every service round received bytes must be a prefix of transmitted bytes in both directions, wire logs must equal the bytes the kernel accepted/delivered, and healthy servicing must deliver everything.",
+                text="Real tcp Client/ClientTls (built with application-supplied empty rxbs/txbs buffers, which the harness fills and observes) and Server/ServerTls exchange scripted payloads over FakeNet (TLS may want the opposite direction at any send/recv; wire logs receive-only, transmit-only or both; server-side connection timers that activity refreshes or not; a reconnectable client whose server is not listening at first, so that it re-opens its socket with bytes waiting; either side half-closing its receive direction and transmitting on; the application emptying the client's receive buffer); every execution with up to 3 (quick) / 5 (thorough) non-default kernel answers is run; after every service round received bytes must be a prefix of transmitted bytes in both directions, wire logs must equal the bytes the kernel accepted/delivered, and healthy servicing must deliver everything.",
                 note="Trusted: FakeNet (its deterministic behaviour is compared call by call with real loopback sockets by vf/env/fakenet_conf.py, reported in evidence); TLS is a pass-through raising OpenSSL's want-read/want-write."),
     "C10": dict(cat="fault_enumeration", eng="E1 over FakeNet", ref="3 (TCP group)",
                 tech="exhaustive single (quick) / up to triple (thorough) fault placement: every connection-level errno, TLS EOF, handshake abort at every send/recv/handshake call, peer close/RST/half-close at every step boundary",
@@ -50,7 +50,7 @@ META = {
                 note="Openness is observed on the fake sockets (explicit close() calls), never through garbage collection."),
     "C12": dict(cat="model_checking", eng="E1 full tree over FakeNet + virtual tyme", ref="3 (C12)",
                 tech="complete enumeration of all client activity timings per tick (3^9 and 2^13/2^16; request trickling, response draining, body of an HTTP/1.1 close request trickling) against a statement-derived idle rule",
-                text="Real http.Server (plain and TLS; servant built by the server itself or handed in with a wire log) wound to a virtual Tymist (also: wound only after the connection was accepted); for every timing of client bytes relative to ticks (request trickling, body of a 'Connection: close' / 'TE, close' request trickling, response draining) and every output timing of a streaming application that yields nothing or one byte per service pass, the connection must be closed exactly at the first service at tyme >= last traffic + tymeout and never while traffic keeps arriving.",
+                text="Real http.Server (plain and TLS; servant built by the server itself or handed in with a wire log) wound to a virtual Tymist (also: wound only after the connection was accepted); for every timing of client bytes relative to ticks (request trickling, body of a 'Connection: close' / 'TE, close' request trickling, response draining) and every output timing of a streaming application that yields nothing or one byte per service pass, or produces at every pass while the client reads or not, the connection must be closed exactly at the first service at tyme >= last traffic + tymeout and never while traffic keeps arriving.",
                 note="Traffic is stamped with the tyme of the service call that moved the bytes. Persistent connections are outside the property."),
     "C13": dict(cat="model_checking", eng="E3 differential", ref="3 (HTTP parsing group)",
                 tech="exhaustive enumeration of all <=2/3-cut partitions and byte-by-byte feeding of a message corpus; fragmented vs one-shot differential on the real parsers",
@@ -62,7 +62,7 @@ META = {
                 note="Reference parser transcribed from the WHATWG algorithm (vf/ref/sse.py); streams end with a complete event; no BOM."),
     "C16": dict(cat="fault_enumeration", eng="E3 mutation enumeration over FakeNet", ref="3 (C16)",
                 tech="exhaustive enumeration of short byte strings, alphabet strings, all single mutations of a message corpus, targeted near-valid shapes, a request-target grammar with query shapes, a Content-Type grammar, an event-stream field grammar and two-message sequences on one connection against WSGI server, bare server and client",
-                text="service() of http.Server, BareServer and http.Client must never raise for any enumerated input (near-valid messages, request-target, Content-Type and event-stream grammars, JSON bodies with an escaped lone surrogate, event streams with CR / CRLF line ends cut at every position); a sibling connection must still be answered.",
+                text="service() of http.Server, BareServer and http.Client must never raise for any enumerated input (near-valid messages, request-target, Content-Type and event-stream grammars, JSON bodies with an escaped lone surrogate or nested deeper than the recursion limit, event streams with CR / CRLF line ends cut at every position); a sibling connection must still be answered.",
                 note="Key = (system, innermost hio call site, exception type). Name resolution is owned by the harness (only numeric hosts and localhost resolve)."),
     "C17": dict(cat="exploration", eng="E3", ref="3 (C17)",
                 tech="exhaustive enumeration of bodies x chunk compositions x extensions x trailers and of all chunk-size strings up to a length",
@@ -78,11 +78,11 @@ META = {
                 note="GET carries no body by design; header values are legal field values; form fields compared as body bytes only."),
     "C18": dict(cat="model_checking", eng="E1 over FakeNet + stdlib parser", ref="3 (C18)",
                 tech="stateless deviation-bounded exploration of request sequences x WSGI app behaviours x partial sends; wire bytes judged by an independent HTTP parser",
-                text="1-3 requests per connection (HTTP/1.0/1.1, keep-alive / close / 'TE, close' / 'Close', pipelined, sequential, or sequential in two segments each), scripted WSGI apps (status, Content-Length exact/absent/short incl. ending inside a later piece, the app itself announcing chunked transfer, empty pieces, start_response called twice); the received byte stream must parse into exactly the expected responses in order, each self-delimiting while the connection stays open, closed iff not persistent.",
+                text="1-3 requests per connection (HTTP/1.0/1.1, keep-alive / close / 'TE, close' / 'Close', pipelined, sequential, or sequential in two segments each), scripted WSGI apps (status, Content-Length exact/absent/short incl. ending inside a later piece, the app itself announcing chunked transfer, the app raising HTTPError before answering or after its first piece, empty pieces, start_response called twice); the received byte stream must parse into exactly the expected responses in order, each self-delimiting while the connection stays open, closed iff not persistent.",
                 note="An unframed response to an HTTP/1.0 keep-alive request can only be delimited by closing (RFC 7230): expected as non-persistent."),
     "C19": dict(cat="model_checking", eng="E1 full tree over FakeNet", ref="3 (C19)",
                 tech="complete enumeration of scripted server behaviours per queued request (immediate, delayed, fragmented, redirecting, closing) against the real http.Client",
-                text="1-2/3 queued requests (each queued in one of 5 ways: qargs+body, raw dict, query inside the path, no query, HEAD), plain and TLS-flavoured client, reconnectable or not; every assignment of 11-12 server behaviours (incl. a redirect without Location, a 204 without a length, a bare 100 Continue first, an absolute Location without a port, a chain http -> https -> http) and 4 redirect codes; every request goes out with exactly its own method, query and body; a plainly answered request yields a plain entry whatever happened before; no request bytes while an earlier response is unfinished; at most one response entry per request in order with tag and redirect history; https->http refused without contacting the plain listener, also on the second hop of a chain; exactly one entry per request when the connection stays usable.",
+                text="1-2/3 queued requests (each queued in one of 5 ways: qargs+body, raw dict, query inside the path, no query, HEAD), plain and TLS-flavoured client, reconnectable or not; every assignment of 14-15 server behaviours (thorough: queues of three with at most 4 choices off the default) (incl. a redirect without Location, a 204 without a length, a bare 100 Continue first, an absolute Location without a port, a chain http -> https -> http, 'Transfer-Encoding: Chunked', a head cut inside the header block, a Location query with encoded delimiters) and 4 redirect codes; every request goes out with exactly its own method, query and body; a plainly answered request yields a plain entry whatever happened before; no request bytes while an earlier response is unfinished; at most one response entry per request in order with tag and redirect history; https->http refused without contacting the plain listener, also on the second hop of a chain; exactly one entry per request when the connection stays usable.",
                 note="Liveness is not demanded through a connection the server closed unless the client is reconnectable on its original connector."),
     "C20": dict(cat="model_checking", eng="E3 permutation enumeration", ref="3 (memo group)",
                 tech="exhaustive enumeration of gram sizes x header encodings x codes through the real Memoer.rend, and of every delivery permutation, duplicate insertion, strict subset and two-memo interleaving into the real receive side",
@@ -126,7 +126,7 @@ META = {
                 note="Runs as root on tmpfs, so the permission-driven fallback to the alternate head is watched but not exercised. Left-over mkdtemp directories of temp Filers are a recorded KNOWN-FINDING (2 keys). Intermediate directories of persistent Filers may stay (shared)."),
     "C30": dict(cat="model_checking", eng="E1-sched + virtual asyncio loop, differential", ref="3 (C30), 2 (virtual loop)",
                 tech="stateless exploration incl. all asyncio ready-queue orders on a hand-stepped event loop; do() vs ado() differential",
-                text="Each program is run with do() and with ado() on a virtual BaseEventLoop with 0..2 spinning competitor tasks; the explorer also picks which ready handle runs next; limit and start tyme are given to the constructor or to do()/ado() (limits of either sign, 'no limit' as 0), also followed by a second run without arguments, doers fresh or run before by another Doist, a deed left over in the idle scheduler before a run that is given its doers, sys.exit() inside a doer; traces, tymes, done flags must be identical.",
+                text="Each program is run with do() and with ado() on a virtual BaseEventLoop with 0..2 spinning competitor tasks; the explorer also picks which ready handle runs next; limit and start tyme are given to the constructor or to do()/ado() (limits of either sign, 'no limit' as 0), also followed by a second run without arguments, doers fresh or run before by another Doist, a deed left over in the idle scheduler before a run that is given its doers, a doer listed twice, sys.exit() inside a doer; traces, tymes, done flags must be identical.",
                 note="Trusted: the virtual loop (BaseEventLoop subclass) is asyncio's own Task/Handle machinery with time() and the selector removed."),
 }
 
